@@ -127,6 +127,34 @@ Theorem single_service_subscript_is_port : forall W o s k rest,
 Proof. exact single_service_subscript_is_port_l. Qed.
 Print Assumptions single_service_subscript_is_port.
 
+(* ... and so it does with a default service, in that service. *)
+Theorem default_service_subscript_is_port : forall W o ds s k rest,
+  wf W = true -> loadable W = true -> (2 <= length (w_services W))%nat ->
+  opt_service o = Some ds -> pick s_name (w_services W) ds = Some s ->
+  sat (port_level W o s k rest) (run W o (Item k :: rest)) = true.
+Proof. exact default_service_subscript_is_port_l. Qed.
+Print Assumptions default_service_subscript_is_port.
+
+(* Attribute access: default service when set else the first; default port
+   when set else the first SOAP port (attr_level); an unknown default raises. *)
+Theorem attribute_access_uses_defaults : forall W o n rest,
+  wf W = true -> loadable W = true ->
+  match the_service W o with
+  | inr s => sat (attr_level W o s n rest) (run W o (Attr n :: rest)) = true
+  | inl r => sat r (run W o (Attr n :: rest)) = true
+  end.
+Proof. exact attribute_access_uses_defaults_l. Qed.
+Print Assumptions attribute_access_uses_defaults.
+
+(* First service and first port by default. *)
+Theorem first_service_first_port_by_default : forall W o n s r p r',
+  wf W = true -> loadable W = true ->
+  opt_service o = None -> opt_port o = None ->
+  w_services W = s :: r -> soap_ports W s = p :: r' ->
+  sat (declared W o p n) (run W o [Attr n]) = true.
+Proof. exact first_service_first_port_by_default_l. Qed.
+Print Assumptions first_service_first_port_by_default.
+
 (* The location option replaces the URL and changes nothing else. *)
 Theorem location_changes_url_only : forall W o v e,
   match run W (set_location None o) e with
@@ -224,3 +252,12 @@ Example clients_nonvacuous :
               ECall 0 [Attr 8%N]; ECall 1 [Attr 8%N]] in
   world_run exW [no_options] evs = [OSent 60%N 33%N (1%N, 53%N); OSent 99%N 31%N (40%N, 8%N)].
 Proof. vm_compute. reflexivity. Qed.
+
+Example defaults_nonvacuous :
+  exists s p, w_services exW = s :: [mkS 3 [mkP 5 20 63]]%N /\ soap_ports exW s = p :: [mkP 4 20 62]%N /\
+    declared exW exO p 7%N = SRoute 60%N 32%N (1%N, 52%N) /\
+    run exW exO [Attr 7%N] = OSent 60%N 32%N (1%N, 52%N) /\
+    (* default service 3 (by name): the subscript is a port key there *)
+    run exW (mkO (Some (KStr 3%N)) None None) [Item (KInt 0); Attr 8%N] = OSent 63%N 31%N (40%N, 8%N) /\
+    run exW (mkO (Some (KStr 3%N)) None None) [Item (KStr 2%N); Attr 8%N] = ORaise PortNotFound.
+Proof. repeat eexists; vm_compute; reflexivity. Qed.
